@@ -3,6 +3,9 @@
 import json, subprocess
 ALL = ["C%02d" % i for i in range(1, 21)]
 CLAIMED = {
+ "C19": dict(level="exploration", technique="runtime matrix monitor with a twin-location differential: every operation x protection state x caller, before/after snapshots of raw storage and live items for refusals, unprotected twin for allowed calls",
+   text="All 25 operations (direct, via RunJavascript, via a rule action) are executed under all 6 protection states and 3 callers on generated contents of both state kinds; a refusal must be an error with byte-identical storage and live state, an allowed call must equal the unprotected twin; the finite matrix is enumerated completely per content seed.",
+   note="Matrix as stated in DESIGN §5 C19 (RuleEnabled, GetParents, SetProp/RemProp and StateSize-when-disabled are outside it); core.Location level.", ref="§5 C19"),
  "C04": dict(level="exploration", technique="exactly-once / conservation monitor over three independent execution records (Env.out side channel, work tree, values) vs the expected multiset, run under the Go race detector",
    text="For generated worlds of rules, facts and events the multiset of action executions observed through a side channel, the returned work tree and the values list must all equal rules x when-bindings x condition-bindings x actions, each with the expected environment; failing actions must fail on their own node only; the race detector watches the concurrent action execution.",
    note="Expected multiset from lib/ref; action scripts from a template; serial rules with a failing action are only checked for conservation and no-extra-execution.", ref="§5 C04"),
